@@ -254,20 +254,20 @@ TEXT_ADDENDA = {
     "C01": "Kernels that store single cells after their loop get one more consistency row per such cell.",
     "C02": "GridBase._boundary_coordinates (used by both routes for expression conditions) is interpreted on grids with 1-3 axes of pairwise different sizes and returns the coordinates of the boundary point of every face cell; get_boundary_axis is interpreted for every documented spelling of (anti-)periodic axes.",
     "C03": "The resolved set_ghost_cells of every axis-level boundary class (including overrides) leaves the same padded array as the per-side setters chained in the order of the compiled route, hands `args` to both sides and lets MPI sides send before anything is set. No scalar is carried across prange iterations (syntax-level scan); matrix rows also for single-cell axes, boundary data taken for the face cell of the row.",
-    "C04": "_cache_hash hooks recompute at every call; make_operator hands the resolved operator info to the cached back-end method; make_stepper reads no info entry the same call has not written; hash_mutable is called only in tools/cache.py and _cache_hash hooks (no hand-written memo outside the analysed decorators); cached evaluators of expression classes must carry `consts` in their key (two known findings).",
+    "C04": "_cache_hash hooks recompute at every call; make_operator hands the resolved operator info to the cached back-end method; make_stepper reads no info entry the same call has not written; hash_mutable is called only in tools/cache.py and _cache_hash hooks (no hand-written memo outside the analysed decorators); cached evaluators of expression classes must carry `consts` in their key (two known findings); functions receiving `consts`/`user_funcs` do not change the caller's dictionary.",
     "C05": "Every fixed-step scheme has the increment form u + dt*(combination of rhs evaluations) with weight of the old state exactly 1, for every explicit_fraction.",
     "C06": "No value bound directly to a call of the rate function is updated in place by a stepper (the compiled rate may return its argument). Every numpy/numba stepping loop copies the array returned by the post-step hook back into its buffer parameter.",
     "C07": "Back-end make_stepper wrappers hand times through and return the inner stepper's result unmodified; info['steps'] is reset unconditionally when a stepper is built.",
     "C08": "Every make_stepper that publishes info['dt'] declares info['dt_adaptive']; a stepper not built from the fixed-step machinery declares it True. Constant tolerances are used only where the solver's own dt is unknown too; copies of interrupt objects carry every constructor parameter.",
-    "C09": "Constructors of the lattice-based interrupts store dt, t_start, scale and factor as python floats (double precision cursor arithmetic).",
+    "C09": "Constructors of the lattice-based interrupts store dt, t_start, scale and factor as python floats (double precision cursor arithmetic). initialize assigns every cursor attribute that next feeds back before it is read, so a re-used interrupt object restarts its schedule.",
     "C10": "Every equation of a multi-field PDE gets its own operator table; coordinate arguments of the expression rate are bound to cell_coords in the order of grid.axes.",
     "C11": "Printers of logical connectives are decided in two stages (emission interpreted, emitted text evaluated with numpy's binary ufunc semantics on all truth assignments). tools.expressions.evaluate binds every coordinate name of the signature to the coordinate array of its own axis (interpreted slice, every subset of used axes).",
     "C12": "Every return path of difference_vector passes the periodic wrap; get_random_point draws within the bounds of the grid for both values of avoid_center.",
-    "C13": "noise_var(state, t) is evaluated inside every step closure; make_noise_variance yields one entry per data component carrying the variance of its field.",
+    "C13": "noise_var(state, t) is evaluated inside every step closure; make_noise_variance yields one entry per data component carrying the variance of its field. The numpy noise closure is interpreted against a recording generator: call k returns the k-th block of the stream and nothing is drawn ahead.",
     "C14": "The exact-collapse rule also covers the JSON form of `state`; FieldCollection.copy keeps member labels; from_data allocates members with the dtype of the data.",
-    "C15": "The duplicate-object test of FieldCollection.__init__ looks at the final list of field objects.",
+    "C15": "The duplicate-object test of FieldCollection.__init__ looks at the final list of field objects. Component access passes the parent's dtype, so components are views for every dtype.",
     "C17": "GridMesh.from_grid never stores the caller's grid object itself as a sub-grid.",
-    "C18": "Matrix rows are also compared on shapes with a single cell along a Cartesian axis or the axial direction of cylinders; every get_sparse_matrix_data call passes the loop variables of the row besides the virtual index.",
+    "C18": "Matrix rows are also compared on shapes with a single cell along a Cartesian axis or the axial direction of cylinders; every get_sparse_matrix_data call passes the loop variables of the row besides the virtual index. The result field of solve_poisson_equation has the dtype of the right-hand side.",
     "C19": "Hand-written consumers of the rotation matrix contract R[k, i]*v_k; _basis_rotation divides by nothing that vanishes at an admissible point where the mapping itself is regular.",
     "C20": "extract_time_range replaces only a missing bound (None), never the legitimate bound 0.",
 }
